@@ -116,12 +116,15 @@ def _gen_pop_case(rnd, want, opened):
                 kind = 'coupling'
             if want == 'coupling_shares_target_var' and conns and conns[0]['kind'] == 'coupling':
                 tp, top, tv = conns[0]['target']
+                nt = pops[tp]['n']
                 kind = 'matrix'
                 if any(c_['source'] == (sp, sop, sv) for c_ in conns):
                     continue
             c = {'source': (sp, sop, sv), 'target': (tp, top, tv), 'kind': kind}
             if kind == 'scalar':
                 c['w'] = round(vals.new() * rnd.choice([1, -1, 2]), 4)
+                if rnd.random() < 0.3:
+                    c['w'] = 1.0      # the weight for which the generated edge equation omits the multiplication
                 risk.add('conn_scalar')
             else:
                 dens = rnd.choice([0.3, 0.6, 1.0])
@@ -129,7 +132,7 @@ def _gen_pop_case(rnd, want, opened):
                 for i in range(nt):
                     for j in range(ns):
                         if rnd.random() < dens:
-                            W[i, j] = round(vals.new() * rnd.choice([1, 1, -1, 2]), 4)
+                            W[i, j] = round(vals.new() * rnd.choice([1, 1, -1, 2]), 4) if rnd.random() > 0.1 else 1.0
                 if not W.any():
                     W[rnd.randrange(nt), rnd.randrange(ns)] = round(vals.new(), 4)
                 c['W'] = W.tolist()
